@@ -300,16 +300,37 @@ func rulePairDirect(c *Ctx) {
 	}
 }
 
-// tempConnOnly: fn is called only from closures inside (*Service).apiHandler
-// / handleCall (the temporaryConn callbacks).
+// tempConnOnly: fn is called only from inside closures handed to
+// (*Service).temporaryConn (whose response writer disposes the connection).
 func tempConnOnly(p *Prog, fn *ssa.Function) bool {
 	n := p.CG.Nodes[fn]
 	if n == nil || len(n.In) == 0 {
 		return false
 	}
+	tc := p.Method("server.Service.temporaryConn")
+	if tc == nil {
+		return false
+	}
+	inTemp := func(g *ssa.Function) bool {
+		for ; g != nil && g.Parent() != nil; g = g.Parent() {
+			mc := p.parent[g]
+			if mc == nil || mc.Referrers() == nil {
+				continue
+			}
+			for _, r := range *mc.Referrers() {
+				if call, ok := isCallTo(r, tc); ok {
+					for _, a := range call.Common().Args {
+						if stripConv(a) == ssa.Value(mc) {
+							return true
+						}
+					}
+				}
+			}
+		}
+		return false
+	}
 	for _, e := range n.In {
-		top := fnName(TopLevel(e.Caller.Func))
-		if top != "(*server.Service).apiHandler" && top != "(*server.Service).handleCall" {
+		if e.Caller.Func == nil || !inTemp(e.Caller.Func) {
 			return false
 		}
 	}
@@ -962,7 +983,6 @@ func rulePairThrottle(c *Ctx) {
 		c.check(bad == "", name, what, p.Pos(root.Pos()), fmt.Sprintf("%d full paths; every slot taken is freed exactly once", len(tr.Paths)), bad)
 	}
 }
-
 
 // entryRoots lifts a function to the entry points from which it is reached:
 // while it is an unexported helper (not stop(fn)) with static callers in the
